@@ -45,9 +45,9 @@ func init() {
 			"FirstDiff on pairs from a common stem (equal, one bit flipped in word k, one a prefix of the other, unrelated) with ALL (from,end) in [0,w+2] x ({-1} u [0,w+3]); FromStrs/ToStrs on lists of 0..5 strings. " +
 			"Non-trivial+distinct = hash of (width, string) for non-empty strings; hash of (width, a, b) FirstDiff pairs.",
 		Assumptions: []string{"Get only for i < words(s); ToStr only on in-range word values; from >= 0; end = -1 or >= 0"},
-		Flavours:    releaseThenGo126,
+		Flavours:    releaseAnd386,
 		Required: []string{"w=1", "w=2", "w=4", "w=8", "tostr/partial-last-byte", "tostr/empty", "firstdiff/end=-1", "firstdiff/from>=lim", "firstdiff/end-beyond-shorter", "firstdiff/found", "firstdiff/none",
-			"firstdiff/prefix-pair", "firstdiff/end>=MaxInt/8", "strs/empty-list", "strs/append-to-element", "byte>=0x80", "len>=300"},
+			"firstdiff/prefix-pair", "firstdiff/end>=MaxInt/8", "strs/empty-list", "strs/append-to-element", "byte>=0x80", "len>=300", "tostr/long-result-retained"},
 		Families: func(c *mon.Config) []mon.Family {
 			return []mon.Family{
 				{Name: "one-two-byte", N: 4 * 257, Run: c08Enum},
@@ -55,6 +55,18 @@ func init() {
 				{Name: "tostr-lengths", N: 4 * 18 * c.Pick(20, 5000), Run: c08ToStr},
 				{Name: "firstdiff", N: c.Pick(10000, 2000000), Run: c08FirstDiff},
 				{Name: "strs", N: c.Pick(5000, 1000000), Run: c08Strs},
+				{Name: "long-strings", N: c.Pick(60, 6000), Run: func(w *mon.W, idx int) {
+					s := string(gen.ZooBytes(w.Rng, []int{1024, 2000, 5000, 40000}[idx%4]+w.Rng.Intn(100)))
+					for _, n := range c08Widths {
+						if !c08CheckStr(w, n, s) {
+							return
+						}
+					}
+					w.Distinct(gen.Hash64(0x10c8, gen.HashStr(s)))
+					w.Sample(func() interface{} {
+						return mon.D{"len": len(s), "what": "long string, all widths, ToStr results retained"}
+					})
+				}},
 			}
 		},
 	})
@@ -83,9 +95,27 @@ func c08CheckStr(w *mon.W, n int, s string) bool {
 		}
 	}
 	w.Op = "ToStr"
-	if back := bw.ToStr(words); back != s {
-		w.Fail(fmt.Sprintf("ToStr(FromStr(s))/w=%d", n), mon.D{"width": n, "s": fmt.Sprintf("%q", s), "got": fmt.Sprintf("%q", back)})
+	back := bw.ToStr(words)
+	if back != s {
+		w.Fail(fmt.Sprintf("ToStr(FromStr(s))/w=%d", n), mon.D{"width": n, "s": fmt.Sprintf("%.60q", s), "got": fmt.Sprintf("%.60q", back)})
 		return false
+	}
+	// strings returned earlier must still read the same (a string built without copying from a buffer
+	// the library reuses would change): keep the last few long results and re-read them
+	if len(s) >= 256 {
+		held, _ := w.State["c08held"].([][2]string)
+		for _, h := range held {
+			if h[0] != h[1] {
+				w.Fail("ToStr/earlier-returned-string-changed-by-later-call", mon.D{"len": len(h[1]), "what": "a string returned by an earlier ToStr call no longer equals what it was"})
+				w.State["c08held"] = [][2]string(nil)
+				return false
+			}
+		}
+		if len(held) >= 6 {
+			held = held[1:]
+		}
+		w.State["c08held"] = append(held, [2]string{back, string(append([]byte(nil), s...))})
+		w.Bucket("tostr/long-result-retained")
 	}
 	w.Eval(int64(2*nwords + 2))
 	scribbleB(words) // ours now; a shared or cached buffer would poison later results
